@@ -40,7 +40,7 @@ KINDS = ["empty", "obssize", "sampsize", "obsdup", "sampdup", "obsmdsize",
 REACTIONS = ["raise", "ignore", "warn", "print", "call"]
 DEFAULT = {k: "raise" for k in KINDS}
 DEFAULT["empty"] = "ignore"
-SITES = {"empty": ["ctor", "filter", "copy", "transform_copy"],
+SITES = {"empty": ["ctor", "filter", "copy", "transform_copy", "filter_noop"],
          "obsdup": ["ctor", "update_ids", "copy", "transform_copy", "load"],
          "sampdup": ["ctor", "update_ids", "copy", "load"],
          "obssize": ["ctor", "ctor_zero", "ctor_rows", "ctor_rowdicts",
@@ -76,7 +76,7 @@ def trigger(kind, site):
     predicate recognising the offending table."""
     from biom import Table
     a = np.array([[1.0, 2.0], [3.0, 4.0]])
-    if site in ("copy", "transform_copy"):
+    if site in ("copy", "transform_copy", "filter_noop"):
         # an operation that constructs a new table from one that already
         # offends (it was built while the kind was ignored)
         from biom.err import seterr
@@ -87,6 +87,10 @@ def trigger(kind, site):
             seterr(**old)
         if site == "copy":
             return lambda: base.copy()
+        if site == "filter_noop":
+            # an in-place filter that keeps everything of an already
+            # offending (empty) table still checks it
+            return lambda: base.filter(lambda v, i, md: True, inplace=True)
         return lambda: base.pa(inplace=False)
     if kind in ("obsdup", "sampdup") and site == "load":
         # a JSON document naming an ID twice, read with load_table
